@@ -40,7 +40,8 @@ CHECKS = {
        "(object/array begin-end, key spans, literal spans) equals the reference decoder's, and Len() is the end of the value.",
   note="Under the trailing-characters option a number cut inside its syntax (\"1e\", \"1.x\") is treated as unspecified (is it the "
        "value 1 followed by text?). Decoded string VALUES are not compared here (spans are); that is C03's subject. Len() and Check() of a document are "
-       "also compared with a fresh object after 0/1/3/all NextLexeme calls and after Check().",
+       "also compared with a fresh object after 0/1/3/all NextLexeme calls and after Check(). Single-byte mutations of the corpus "
+       "documents (any position, any byte) are a third input family of the language check.",
   ref="DESIGN.md §4 C12"),
  "C19": dict(
   text="Bounded symbolic model checking of the real generated containers RuleASTNodes, ASTNodes, Constraints and StringSet: ONE "
@@ -67,7 +68,10 @@ CHECKS = {
        "bytes, building the Schema Object tree (jsoac.New, SetDescription) does not panic; (5) NewNumber/GuessSchemaType on a symbolic "
        "mantissa with 16 concrete exponents at and beyond every limit of the implementation (refusal threshold +-1, 17-20 digits of "
        "both signs, 2^63, 2^64); (6) Example() of 41 concrete regex schemas, 14 of which compile but defeat the example generator "
-       "(a generator panic is turned into a panic of the code under test).",
+       "(a generator panic is turned into a panic of the code under test); (7) single-byte mutations: every corpus text (jschema, enum, "
+       "JSON) with ONE byte at any position replaced by an arbitrary byte; (8) enum string values of up to 6/8 bytes mixing ASCII, "
+       "invalid bytes, lead and continuation bytes (malformed UTF-8 grows when decoded); (9) user types whose text has no value at "
+       "all (empty, blank, comment only) or is cut short, every operation twice.",
   note="The reflective json.Marshal step of the OpenAPI conversion is outside the claim (encoding/json reflection is not executed); regex Example() (reggen) is host code and "
        "not explored symbolically; memory exhaustion is outside; inputs longer than the bounds that are not prefix-probe shaped are outside.",
   ref="DESIGN.md §4 C02"),
@@ -79,7 +83,8 @@ CHECKS = {
        "second or later line are quoted whole or as a prefix followed by '...'; (2) on every rejecting path of the C02 input families (jschema, enum, regex, JSON document) the returned error is a "
        "kit.JSchemaError or *errs.Err (never a runtime.Error or other raw Go error), its code is not the internal-failure code, its "
        "message is not a recovered runtime-error text, a carried index lies inside the text, and rendering it succeeds; the same for "
-       "projects of mutually referencing types (the C02 project family).",
+       "projects of mutually referencing types (the C02 project family), for the single-byte mutation families and for user types "
+       "without a value.",
   note="Message wording is outside the claim (messages built from symbolic bytes are opaque to the engine); texts mixing newline "
        "conventions are outside (1).",
   ref="DESIGN.md §4 C16"),
@@ -115,9 +120,13 @@ CHECKS = {
        "strings of 0-3/4 pieces (plain or escaped) x N; minItems/maxItems (1-3 items x N); min+max with both exclusivity rules in every "
        "combination (integers); `or` of two rule sets whose first alternative is an integer rule set or a (nullable) string rule set "
        "that can never accept the value; a type "
-       "reference through `type` and through a shortcut with the rule on the type; inline enum with two entries. Accepted iff the "
+       "reference through `type` and through a shortcut with the rule on the type; inline enum with two entries; `or` over type names "
+       "where a name recurs through a type choice; the five built-in string formats over a table of 37 clearly valid / clearly "
+       "invalid candidates, at the root, as a member and inside a registered type; a scalar under `type` with every combination of "
+       "const and nullable; the regex rule over 9 patterns x 11 candidates with escapes on both sides. Accepted iff the "
        "oracle accepts; min/max rejections carry the constraint-violation code.",
-  note="Outside the claim: regex rule on symbolic subjects, email/uri/date/datetime/uuid formats, const/nullable, exponents in rule "
+  note="Outside the claim: regex rule and formats on SYMBOLIC subjects (the validators are host code), a null example under "
+       "`nullable: true` with another type and an integer literal under type float (left open), exponents in rule "
        "values, non-ASCII strings, more digits than stated.",
   ref="DESIGN.md §4 C01"),
  "C03": dict(
@@ -196,7 +205,9 @@ CHECKS = {
        "accept. A second harness does the same for trees: objects (properties, required), arrays (items as anyOf, minItems/maxItems), "
        "`or` alternatives, null/nullable (null as the one variation of a nullable root, also for `@a | @b` and `@a` shortcuts), quoted "
        "type-like keys, additionalProperties (false / a registered type) seen from the SAME Schema Object only, allOf as 'instance of "
-       "every referenced conversion', and references resolved to the conversions of the registered types (11 shapes, symbolic scalars).",
+       "every referenced conversion', and references resolved to the conversions of the registered types (11 shapes, symbolic scalars). "
+       "`pattern`: for 10 concrete regex rules with escapes the keyword is one JSON string that decodes to exactly the rule's "
+       "expression and matches the example.",
   note="Outside the claim: the JSON TEXT of the conversion (encoding/json reflection is not executed: well-formedness, key escaping, "
        "omitempty), typed additionalProperties other than a user type (treated as 'anything goes'), pattern, format. Known finding "
        "C08-allof-additional-properties-false (heir and parent refuse each other's members) is reported as KNOWN-FINDING.",
